@@ -369,6 +369,7 @@ func (P) Generate(g *core.Gen) {
 	genPositionSweep(g)
 	genLowHeight(g)
 	genSeqBits(g)
+	genClockAtMTP(g)
 }
 
 func genIndependent(g *core.Gen) {
@@ -1530,5 +1531,40 @@ func genSeqBits(g *core.Gen) {
 		pg.s.txs[j].allMax = false
 		s := pg.finish(true)
 		g.Case("seq-bits", true, s.line())
+	}
+}
+
+// genClockAtMTP: the node's clock at MTP-1 / MTP / MTP+1 / MTP+2 (and far
+// behind) of a chain whose recent blocks are timestamped ahead of it, both when
+// the template is made and when it is refreshed with UpdateBlockTime: the
+// header must carry max(clock, MTP+1) - strictly after the median time - and
+// the template / refreshed template must validate and connect.
+func genClockAtMTP(g *core.Gen) {
+	offs := []int64{-1, 0, 1, 2, -3000}
+	c := 0
+	for _, d1 := range offs {
+		for _, d2 := range []int64{-1, 0, 1, 2} {
+			c++
+			if !g.Thorough() && (c+int(g.Seed))%2 == 0 && d1 != 0 && d2 != 0 {
+				continue
+			}
+			pg := newPoolGen(g.R, c%3) // CSV/segwit on, off, and the retargeting world
+			pg.s.now, pg.s.unow = pg.s.mtp+d1, pg.s.mtp+d2
+			pg.s.pb = true
+			pg.s.upd = c%2 == 0
+			if c%4 != 0 {
+				pg.randomPool(poolOpts{n: g.R.Intn(4), childProb: 30, maxFee: 50000, anyKind: true})
+			}
+			s := pg.finish(true)
+			if s.world == 2 {
+				s.dp = diffParams(makeParams(2))
+				var parts []string
+				for h := blocksOf(2); h >= 0; h-- {
+					parts = append(parts, fmt.Sprintf("%d:%08x", pg.w.times[h], pg.w.bits[h]))
+				}
+				s.hist = joinStrings(parts, ",")
+			}
+			g.Case("clock-at-mtp", true, s.line())
+		}
 	}
 }
